@@ -111,18 +111,21 @@ def _field_calls(case):
         r = surf_rxns()
         ph = InteractingInterface(name='surf', species=[sp['H2(S)'], sp['HH(S)']],
                                   phases=['gas'], site_density=1e-9, interactions=None, reactions=r)
-        return r, (lambda o: [x.id for x in o]), (lambda: field(ph.to_cti(delimiter=delim), 'reactions'))
+        return (r, (lambda o: [x.id for x in o]), (lambda: field(ph.to_cti(delimiter=delim), 'reactions')),
+                (lambda: ph.to_omkm_yaml()))
     if host == 'interface.interactions':
         it = [PiecewiseCovEffect(name_i='H2(S)', name_j='HH(S)', intervals=[0., 0.5],
                                  slopes=[1., 2.], name=i) for i in ids]
         ph = InteractingInterface(name='surf', species=[sp['H2(S)'], sp['HH(S)']],
                                   phases=['gas'], site_density=1e-9, interactions=it, reactions=None)
-        return it, (lambda o: [x.name for x in o]), (lambda: field(ph.to_cti(delimiter=delim), 'interactions'))
+        return (it, (lambda o: [x.name for x in o]),
+                (lambda: field(ph.to_cti(delimiter=delim), 'interactions')), (lambda: ph.to_omkm_yaml()))
     if host in ('idealgas.reactions', 'ct_idealgas.reactions'):
         r = gas_rxns()
         cls = IdealGas if host == 'idealgas.reactions' else CtIdealGas
         g = cls(name='gas', species=[sp['H2']], reactions=r)
-        return g.reactions, (lambda o: [x.id for x in o]), (lambda: field(g.to_cti(delimiter=delim), 'reactions'))
+        return (g.reactions, (lambda o: [x.id for x in o]),
+                (lambda: field(g.to_cti(delimiter=delim), 'reactions')), (lambda: g.to_omkm_yaml()))
     if host in ('bep.cti.synthesis', 'bep.cti.cleavage', 'bep.yaml.synthesis', 'bep.yaml.cleavage',
                 'bep.reactions_cti'):
         r = surf_rxns()
@@ -134,12 +137,15 @@ def _field_calls(case):
         if host.startswith('bep.cti'):
             name = 'synthesis_reactions' if syn else 'cleavage_reactions'
             get = lambda: field(b.to_cti(units=u, delimiter=delim), name)
+            between = lambda: b.to_omkm_yaml(units=u)
         elif host == 'bep.reactions_cti':
             get = lambda: b._get_reactions_CTI(direction='synthesis', delimiter=delim)
+            between = lambda: b.to_omkm_yaml(units=u)
         else:
             key = 'synthesis-reactions' if syn else 'cleavage-reactions'
             get = lambda: b.to_omkm_yaml(units=u).get(key, '[]')
-        return held, (lambda o: [x.id for x in o]), get
+            between = lambda: b.to_cti(units=u)
+        return held, (lambda o: [x.id for x in o]), get, between
     raise core.MachineryError('unknown host %r' % (host,))
 
 
@@ -148,18 +154,28 @@ def execute_range(case):
     ids, delim = case['ids'], case.get('delim', DELIM)
     events, mism = [], []
     if case['kind'] == 'field':
-        objs, read, get = _field_calls(case)
-        raised, out = '', ''
-        try:
-            out = get()
-        except core.MachineryError:
-            raise
-        except Exception as ex:
-            raised = type(ex).__name__
-        events.append(_range_event(ids, read(objs), delim, raised, out, case['host']))
+        # the same host object is written twice (another writer is called in between)
+        objs, read, get, between = _field_calls(case)
+        for rep in range(case.get('repeat', 2)):
+            raised, out = '', ''
+            try:
+                out = get()
+            except core.MachineryError:
+                raise
+            except Exception as ex:
+                raised = type(ex).__name__
+            events.append(_range_event(ids, read(objs), delim, raised, out,
+                                       '%s#%d' % (case['host'], rep + 1)))
+            try:
+                between()
+            except Exception:
+                pass                      # not a C18 call; its failures belong to C07
         return events, mism
+    held = {}                             # one collection object per carrier, reused by every call
     for call in case['calls']:
-        objs, read = _wrap_ids(ids, call['as'])
+        if call['as'] not in held:
+            held[call['as']] = _wrap_ids(ids, call['as'])
+        objs, read = held[call['as']]
         raised, out = '', ''
         try:
             out = _get_omkm_range(objs=objs, delimiter=delim, format=call['form'])
@@ -194,34 +210,125 @@ def _wrap_obj(toks, how):
     raise core.MachineryError('unknown value carrier %r' % (how,))
 
 
-def execute_wrap(case):
-    from pmutt.io.cantera import obj_to_cti
-    obj, toks = _wrap_obj(case['toks'], case['obj'])
-    raised, out = '', ''
-    try:
-        out = obj_to_cti(obj, line_len=case['ll'], max_line_len=case['ml'])
-    except Exception as ex:
-        raised = type(ex).__name__
+def _project(obj, how):
+    """the tokens a value object carries right now (projection)"""
+    if how == 'str':
+        return obj.split()
+    if how == 'dict':
+        return ['%s:%s' % kv for kv in obj.items()]
+    return [x if isinstance(x, str) else repr(x) for x in obj]
+
+
+def _wrap_event(toks, before, after, ll, ml, raised, out, src):
     if not isinstance(out, str):
         out = repr(out)
-    ev = {'ev': 'wrap', 'toks': [codes(t) for t in toks], 'll': case['ll'], 'ml': case['ml'],
-          'raised': raised, 'out': codes(out), 'obj': case['obj']}
-    rows = out.split('\n')
-    info = {'wrap_multiline_outputs': 1 if len(rows) > 1 else 0,
-            'wrap_overlong_one_word_lines': sum(
-                1 for i, r in enumerate(rows)
-                if len(r) > (case['ll'] if i == 0 else case['ml']) and len(r.split()) == 1)}
-    if 'ref' in case and not raised:
-        real = [[len(line), len(line.split())] for line in out.split('\n')]
-        if out == '""':
-            real = [[2, 0]]                  # the model counts the words between the quotes
-        info['layout_equals_model'] = (real == [list(r) for r in case['ref']])
-    return [ev], [], info
+    return {'ev': 'wrap', 'toks': [codes(t) for t in toks], 'before': [codes(t) for t in before],
+            'after': [codes(t) for t in after], 'll': ll, 'ml': ml, 'raised': raised,
+            'out': codes(out), 'obj': src}
+
+
+def _wrap_info(events, widths, listlike):
+    multi = over = 0
+    for e, (ll, ml) in zip(events, widths):
+        rows = uncodes(e['out']).split('\n')
+        multi += 1 if len(rows) > 1 else 0
+        over += sum(1 for i, r in enumerate(rows)
+                    if len(r) > (ll if i == 0 else ml) and len(r.split()) == 1)
+    return {'wrap_calls': len(events), 'wrap_multiline_outputs': multi,
+            'wrap_overlong_one_word_lines': over,
+            'same_list_wrapped_twice_multiline': 1 if (listlike and multi >= 2) else 0}
+
+
+def execute_wrap(case):
+    """One value object, wrapped once per entry of case['widths'] (a history of calls on the
+    same object); the object is read before and after every call."""
+    from pmutt.io.cantera import obj_to_cti
+    obj, toks = _wrap_obj(case['toks'], case['obj'])
+    widths = [tuple(w) for w in case.get('widths') or [(case['ll'], case['ml'])]]
+    events, info = [], {}
+    for n, (ll, ml) in enumerate(widths):
+        before = _project(obj, case['obj'])
+        raised, out = '', ''
+        try:
+            out = obj_to_cti(obj, line_len=ll, max_line_len=ml)
+        except Exception as ex:
+            raised = type(ex).__name__
+        events.append(_wrap_event(toks, before, _project(obj, case['obj']), ll, ml, raised, out,
+                                  case['obj']))
+        if n == 0 and 'ref' in case and not raised and isinstance(out, str):
+            real = [[len(line), len(line.split())] for line in out.split('\n')]
+            if out == '""':
+                real = [[2, 0]]              # the model counts the words between the quotes
+            info['layout_equals_model'] = (real == [list(r) for r in case['ref']])
+    info.update(_wrap_info(events, widths, case['obj'] == 'list'))
+    return events, [], info
+
+
+def _cti_value(text, field):
+    """projection: (number of characters before the value on its line, the value text) of
+    `field="..."` / `field=\"\"\"...\"\"\"` in a written CTI object"""
+    m = re.search(r'(?m)^(?P<prefix>[^\n]*?\b%s=)"' % re.escape(field), text)
+    if not m:
+        raise core.MachineryError('field %s not found in written object:\n%s' % (field, text))
+    start = m.end() - 1
+    if text.startswith('"""', start):
+        end = text.index('"""', start + 3) + 3
+    else:
+        end = text.index('"', start + 1) + 1
+    return len(m.group('prefix')), text[start:end]
+
+
+def execute_wrapfield(case):
+    """A real phase whose species / options / note / phases carry the tokens is written twice
+    with to_cti (to_omkm_yaml in between); each written field is one wrap event."""
+    from pmutt.empirical.nasa import Nasa
+    import numpy as np
+    from pmutt.omkm.phase import InteractingInterface, IdealGas
+    from pmutt.cantera.phase import IdealGas as CtIdealGas
+    a = np.zeros(7)
+    toks = case['toks']
+    species = [Nasa(name=t, T_low=300., T_mid=500., T_high=900., a_low=a, a_high=a,
+                    elements={'H': 2}, phase='gas') for t in toks]
+    host = case['host']
+    if host == 'interface':
+        ph = InteractingInterface(name='surf', species=species, phases=list(toks), site_density=1e-9,
+                                  interactions=None, reactions=None, options=list(toks),
+                                  note=' '.join(toks))
+        fields = ('species', 'phases', 'options', 'note')
+    else:
+        cls = IdealGas if host == 'idealgas' else CtIdealGas
+        ph = cls(name='gas', species=species, reactions=None, options=list(toks), note=' '.join(toks))
+        fields = ('species', 'options', 'note')
+    readers = {'species': lambda: [sp.name for sp in ph.species],
+               'phases': lambda: _project(ph.phases, 'list'),
+               'options': lambda: _project(ph.options, 'list'),
+               'note': lambda: _project(ph.note, 'str')}
+    events, widths = [], []
+    for ml in case['mls']:
+        before = {f: readers[f]() for f in fields}
+        raised, text = '', ''
+        try:
+            text = ph.to_cti(max_line_len=ml)
+        except Exception as ex:
+            raised = type(ex).__name__
+        for f in fields:
+            plen, val = (0, '') if raised else _cti_value(text, f)
+            events.append(_wrap_event(toks, before[f], readers[f](), ml - plen, ml, raised, val,
+                                      '%s.%s' % (host, f)))
+            widths.append((ml - plen, ml))
+        try:
+            ph.to_omkm_yaml()
+        except Exception:
+            pass                          # not a C18 call
+    info = _wrap_info(events, widths, False)
+    opt = [e for e in events if e['obj'].endswith('.options') and 10 in e['out']]
+    info['same_list_wrapped_twice_multiline'] = 1 if len(opt) >= 2 else 0
+    return events, [], info
 
 
 def execute(case):
     if case['kind'] == 'wrap':
-        return execute_wrap(case)
+        return execute_wrapfield(case) if case.get('host') else execute_wrap(case)
     ev, mism = execute_range(case)
     # exercise counters (vacuity evidence only; no judgement is taken from them)
     info = {'range_calls': len(ev),
@@ -244,9 +351,12 @@ def _safe_execute(case):
 # --------------------------------------------------------------------------
 # case construction
 # --------------------------------------------------------------------------
-CALL_SETS = ([{'form': 'str', 'as': 'str'}, {'form': 'list', 'as': 'id'}],
-             [{'form': 'str', 'as': 'name'}, {'form': 'list', 'as': 'str'}],
-             [{'form': 'str', 'as': 'id'}, {'form': 'list', 'as': 'name'}])
+# the calls of one case are made on the SAME collection object (one per carrier)
+CALL_SETS = ([{'form': 'str', 'as': 'str'}, {'form': 'list', 'as': 'str'}],
+             [{'form': 'list', 'as': 'id'}, {'form': 'str', 'as': 'id'}],
+             [{'form': 'str', 'as': 'name'}, {'form': 'list', 'as': 'name'}])
+CALL_SETS3 = tuple(cs + [dict(cs[0])] for cs in CALL_SETS) + (
+    [{'form': 'str', 'as': 'str'}, {'form': 'str', 'as': 'id'}, {'form': 'list', 'as': 'str'}],)
 
 
 def _tlc_range_cases(raw):
@@ -317,7 +427,7 @@ def _random_range_case(rnd, cid, canonical_only=False, delim=None):
         ids.insert(rnd.randrange(len(ids) + 1), rnd.choice(['r%sabc' % delim, 'r%s' % delim, 'abc']))
         must = False
     return {'kind': 'range', 'cid': cid, 'ids': ids, 'delim': delim, 'must': must,
-            'calls': rnd.choice(CALL_SETS)}
+            'calls': rnd.choice(CALL_SETS3)}
 
 
 FIELD_HOSTS = ('interface.reactions', 'interface.interactions', 'idealgas.reactions',
@@ -348,7 +458,8 @@ def _tlc_wrap_cases(raw):
         toks = [chr(97 + i) * n for i, n in enumerate(lens)]
         how = ('list', 'tuple', 'str', 'set')[k % 4]
         case = {'kind': 'wrap', 'cid': 'tw%d' % k, 'tlc': True, 'toks': toks, 'll': c['ll'],
-                'ml': c['ml'], 'obj': how}
+                'ml': c['ml'], 'obj': how,
+                'widths': [[c['ll'], c['ml']], [c['ll'], c['ml']] if k % 2 else [c['ml'], c['ll']]]}
         if how != 'set':                      # a set fixes its own order: no reference layout
             case['ref'] = c['ref']
         cases.append(case)
@@ -384,7 +495,27 @@ def _random_wrap_case(rnd, cid):
         ll = ml = rnd.randint(30, 100)
     else:
         ll, ml = rnd.randint(30, 100), rnd.randint(30, 100)
-    return {'kind': 'wrap', 'cid': cid, 'toks': toks, 'll': ll, 'ml': ml, 'obj': how}
+    widths = [[ll, ml], [ll, ml]]
+    if rnd.random() < 0.6:
+        ml2 = rnd.randint(46, 100)
+        widths.insert(rnd.choice([1, 2]), [max(30, ml2 - rnd.choice([0, 11, 18, 23, 30])), ml2])
+    return {'kind': 'wrap', 'cid': cid, 'toks': toks, 'll': ll, 'ml': ml, 'obj': how, 'widths': widths}
+
+
+WRAP_HOSTS = ('interface', 'idealgas', 'ct_idealgas')
+
+
+def _wrapfield_case(rnd, cid, host):
+    n = rnd.choice([1, 2, 3, 5, 8, 13, 20, 30])
+    toks, seen = [], set()
+    while len(toks) < n:
+        t = _mk_token(rnd, rnd.choice([1, 3, 8, 12, 20, 28, 30, rnd.randint(1, 30)]))
+        if t not in seen:
+            seen.add(t)
+            toks.append(t)
+    ml = rnd.randint(70, 100)
+    return {'kind': 'wrap', 'cid': cid, 'host': host, 'toks': toks, 'obj': 'phase:' + host,
+            'll': ml, 'ml': ml, 'mls': [ml, ml] if rnd.random() < 0.5 else [ml, rnd.randint(70, 100)]}
 
 
 def _tags(case):
@@ -395,7 +526,7 @@ def _tags(case):
 
 def _signature(case):
     if case['kind'] == 'wrap':
-        return ['w', case['toks'], case['ll'], case['ml'], case['obj']]
+        return ['w', case['toks'], case['ll'], case['ml'], case['obj'], case.get('widths'), case.get('mls')]
     return ['r', case['ids'], case.get('delim'), case.get('host'), case.get('calls')]
 
 
@@ -411,7 +542,9 @@ def run(ctx):
         'a range case is one identifier collection (sequence, duplicates kept) handed to '
         '_get_omkm_range in the str and the list form, as strings or as objects with id/name, or '
         'carried by the reactions/interactions of a real written phase or BEP; a wrap case is one '
-        'token list with (line_len, max_line_len) handed to obj_to_cti as list/tuple/set/dict/str. '
+        'token list handed to obj_to_cti as list/tuple/set/dict/str - the SAME object 2-3 times, at other '
+        'widths too, read before and after each call - or carried by the species/options/note/phases of '
+        'a real phase written twice with to_cti. '
         'Cases are the complete TLC case sets of MC_OmkmRange_cases / MC_CtiWrap_cases plus random '
         'draws from the quantifier (0-60 ids, 1-3 prefixes, suffixes 0-99999; 0-80 tokens of length '
         '1-30, widths 30-100); non-trivial = at least two identifiers / tokens; distinct by input')
@@ -434,6 +567,14 @@ def run(ctx):
                                       + bad.out[-2000:])
         ctx.notes.append('design model rejects filling the first line to max_line_len: %s violated'
                          % bad.violated)
+        for cfg, what in (('MC_CtiWrap_alias', 'changing the caller\'s list during a call'),
+                          ('MC_CtiWrap_alias_tokens', 'the marker left in the caller\'s list showing up '
+                                                      'as a token of a later call')):
+            bad = ctx.model('MC_CtiWrap', cfg, expect_ok=False)
+            if bad.ok or bad.violated is None:
+                raise core.MachineryError('%s should be rejected by the design model:\n%s'
+                                          % (cfg, bad.out[-2000:]))
+            ctx.notes.append('design model rejects %s: %s violated' % (what, bad.violated))
         # (S->C) TLC case sets
         raw_r, _ = core.tlc_cases('MC_OmkmRange_cases', 'MC_OmkmRange_cases')
         raw_w, _ = core.tlc_cases('MC_CtiWrap_cases', 'MC_CtiWrap_cases')
@@ -448,6 +589,8 @@ def run(ctx):
             cases.append(_field_case(rnd, 'rf%d' % k, FIELD_HOSTS[k % len(FIELD_HOSTS)]))
         for k in range(ctx.pick(1500, 20000)):
             cases.append(_random_wrap_case(rnd, 'rw%d' % k))
+        for k in range(ctx.pick(240, 2400)):
+            cases.append(_wrapfield_case(rnd, 'wf%d' % k, WRAP_HOSTS[k % len(WRAP_HOSTS)]))
     results = core.pmap(_safe_execute, cases)
     rtraces, wtraces = [], []
     layout_same = layout_cmp = 0
